@@ -57,6 +57,15 @@ def configurations(ctx):
             for senders in ([[[*K2, True]]], [[[*K1, True]]], [[[*K2, True]], [[*K1, True]]]):
                 yield {"version": version, "parked": [K1, K2], "senders": senders, "wakes": [A], "awake": [C],
                        "listener_type": t}
+    # the target node is AWAKE when the first senders start (their writes go straight to the transport and suspend
+    # there); the listener's wake messages are Director-controlled events too, so a wake can be delivered while such a
+    # direct write is still pending and later senders park
+    for version in ("2.0", "2.2"):
+        for senders in ([[[*K1, True]], [[*K1, True]]], [[[*K1, True]], [[*K2, True]], [[*K1, True]]],
+                        [[[*K1, True], [*K1, True]], [[*K1, True]]], [[[*K2, False]], [[*K1, True]], [[*K1, True]]]):
+            for wakes in ([A], [A, A]):
+                yield {"version": version, "parked": [], "senders": senders, "wakes": wakes, "awake": [A, C],
+                       "gated_wakes": True}
     if not ctx.quick:
         for version in ("2.0", "2.1", "2.2"):
             for parked in ([K1], [K1, K2]):
